@@ -2,11 +2,16 @@
 mod base;
 mod chain;
 mod exec;
+#[cfg(feature = "ext")]
+mod ext;
+mod fault;
 mod gen;
 mod mon;
+mod more;
 mod ops;
 mod run;
 mod sets;
+mod sweep;
 mod work;
 
 #[global_allocator]
@@ -18,6 +23,9 @@ fn main() {
     let argv: Vec<String> = std::env::args().skip(1).collect();
     let a = run::Args::parse(&argv);
     let cmd = a.pos.first().cloned().unwrap_or_default();
+    if a.has("noforget") {
+        base::NOFORGET.store(true, std::sync::atomic::Ordering::Relaxed);
+    }
     if cmd == "replay" {
         std::process::exit(work::replay(&a));
     }
@@ -27,6 +35,23 @@ fn main() {
     match cmd.as_str() {
         "hist" => work::hist(&a, &mut rep),
         "sets" => sets::sets(&a, &mut rep),
+        "ladder" => sweep::ladder(&a, &mut rep),
+        "sweep" => sweep::sweep(&a, &mut rep),
+        "prefix" => sweep::prefix_probe(&a, &mut rep),
+        "chains" => sweep::chains(&a, &mut rep),
+        "zst" => sweep::zst(&a, &mut rep),
+        "sentinels" => sweep::sentinels(&a, &mut rep),
+        "fault" => fault::fault(&a, &mut rep),
+        "plain" => more::plain(&a, &mut rep),
+        "iterstates" => more::iterstates(&a, &mut rep),
+        "limits" => more::limits(&a, &mut rep),
+        "clones" => more::clones(&a, &mut rep),
+        "meta" => more::meta(&a, &mut rep),
+        "noop" => more::noop(&a, &mut rep),
+        #[cfg(feature = "ext")]
+        "par" => ext::par(&a, &mut rep),
+        #[cfg(feature = "ext")]
+        "serde" => ext::serde(&a, &mut rep),
         _ => {
             eprintln!("unknown workload {cmd:?}");
             std::process::exit(2);
